@@ -5,6 +5,9 @@ stay silent. Patches are applied to copies and passed through -overlay; /repo is
 usage: refaccheck.py [dirs...]"""
 import json, os, re, subprocess, sys, tempfile, shutil, glob, concurrent.futures as cf
 ALL = ",".join("C%02d" % i for i in range(1, 21))
+for a in sys.argv[1:]:
+    if a.startswith("--props="):
+        ALL = a[8:]
 def run(d):
     patch = open(os.path.join(d, "patch.diff")).read()
     files = re.findall(r"^\+\+\+ b/(\S+)", patch, re.M)
@@ -20,10 +23,10 @@ def run(d):
         ov = ["/repo/%s=%s" % (f, os.path.join(td, f)) for f in files if f.endswith(".go") and not f.endswith("_test.go")]
         os.makedirs(os.path.join(td, "verif"))
         shutil.copy("/verif/known-findings.jsonl", os.path.join(td, "verif"))
-        r = subprocess.run(["/verif/bin/stargzlint", "-prop", ALL, "-verif", os.path.join(td, "verif"), "-overlay", ",".join(ov)], capture_output=True, text=True)
+        r = subprocess.run([os.environ.get("STARGZLINT", "/verif/bin/stargzlint"), "-prop", ALL, "-verif", os.path.join(td, "verif"), "-overlay", ",".join(ov)], capture_output=True, text=True)
         viol = [l.strip() for l in r.stdout.splitlines() if l.startswith("  ")]
         return d, {0: "SILENT", 1: "FALSE_ALARM", 2: "INVALID"}.get(r.returncode, "?"), "\n".join(viol[:4]) if r.returncode == 1 else (r.stdout + r.stderr)[-300:] if r.returncode == 2 else ""
-dirs = [a.rstrip("/") for a in sys.argv[1:]] or sorted(glob.glob("/verif/refactors/*"))
+dirs = [a.rstrip("/") for a in sys.argv[1:] if not a.startswith("--")] or sorted(glob.glob("/verif/refactors/*"))
 res = {}
 with cf.ThreadPoolExecutor(4) as ex:
     for d, st, info in ex.map(run, dirs):
